@@ -2,7 +2,7 @@
    Only ExtrOcamlBasic is used: bool, option, unit, list, prod, sumbool map to
    OCaml's; positive/N/Z/nat stay the extracted inductive types. *)
 From Coq Require Extraction ExtrOcamlBasic.
-From PV Require Import Base.Common Model.LabelScope Model.Syntax Model.VarScope Proofs.VarScopeProofs Base.IR Model.Lower Model.Sem Model.Expand Model.Header Model.Containers Model.Layout Model.Literal Gen.Linkage Base.Tok Model.LexAlpha Model.LexDelta.
+From PV Require Import Base.Common Model.LabelScope Model.Syntax Model.VarScope Proofs.VarScopeProofs Base.IR Model.Lower Model.Sem Model.Expand Model.Header Model.Containers Model.Layout Model.Literal Gen.Linkage Base.Tok Model.LexAlpha Model.LexDelta Model.Cli.
 
 Extraction Language OCaml.
 Separate Extraction
@@ -17,6 +17,7 @@ Separate Extraction
   Literal.source_literal Literal.lint Literal.bits_of
   Linkage.linkage_of Linkage.callconv_of
   LexAlpha.lex_alpha_fixed LexAlpha.lex_alpha LexDelta.lex_delta LexDelta.num_end_tokens
+  Cli.backend_for Cli.tool_succeeds Cli.invokes_backend Cli.ll_files_written
   Containers.run Sem.run_main Expand.expand_sorted Header.build_header Header.header_spec Header.zones_wfb Header.refs_localb
   VarScope.an_program VarScope.spec_program VarScopeProofs.once VarScopeProofs.events
   Syntax.body_codes Syntax.spec_body Syntax.lint_body Syntax.lint_spec_body.
